@@ -267,19 +267,26 @@ def _first_state_outlives(loop, sep):
     flags = {}
     for bi, si, stt in b.stmts():
         rv = stt["rv"]
-        if not stt["dst"]["proj"] and rv["k"] == "use" and isinstance(rv["ops"][0], dict) and rv["ops"][0].get("c") == "int" and rv["ops"][0].get("ty") == "bool":
-            flags.setdefault(stt["dst"]["l"], []).append((bi in blocks, rv["ops"][0]["v"]))
+        o = rv["ops"][0] if rv.get("ops") else None
+        if not stt["dst"]["proj"] and rv["k"] == "use" and isinstance(o, dict) and ((o.get("c") == "int" and o.get("ty") in ("bool", "char")) or o.get("c") == "str"):
+            flags.setdefault(stt["dst"]["l"], []).append((bi in blocks, str(o["v"])))
+    sep_events = [a["ev"] for a in sep["alts"]] if sep["t"] == "ALT" else [sep["ev"]]
     for l, asg in flags.items():
         init = {v for inside, v in asg if not inside}
         inner = {v for inside, v in asg if inside}
         if len(init) == 1 and inner and not (inner & init):
-            # the flag is read by a switch inside the loop
+            # the state is read inside the loop: by a switch (a boolean flag), or as the separator that is appended (`push(separator)`)
             for x in blocks:
                 t = b.blocks[x]["term"]
                 if t["k"] == "switch":
                     p = flow.op_place(t["discr"])
                     ch = flow.resolve_chain(b, t["discr"]) if p is not None else None
                     if ch and any(c[0] == l for c in ch):
+                        return True
+            for e in sep_events:
+                if e["body"] is b and e["args"]:
+                    ch = flow.resolve_chain(b, e["args"][0]) or []
+                    if any(c[0] == l for c in ch):
                         return True
     return False
 
